@@ -336,6 +336,15 @@ def rule_c04_clone(ctx):
                 ctx.ob('C04.clone', f, 'components are copied to the position they are stored at', keyed and same,
                        'loop `for %s in %s`; positions passed to the clone: %s' % (norm(loops[0].target), it, [norm(c.args[0]) for c in stores if c.args]),
                        node=loops[0])
+            for lp in loops:
+                gs = [n for n in lp.body if isinstance(n, ast.If) and 'noValue' in norm(n.test)]
+                for g in gs:
+                    cj = g.test.values if isinstance(g.test, ast.BoolOp) else [g.test]
+                    only = len(cj) == 1 and isinstance(cj[0], ast.Compare) and isinstance(cj[0].ops[0], ast.IsNot)
+                    ctx.ob('C04.clone', f, 'a component is skipped only when its slot is empty', only,
+                           'the copy is made under `%s`: stored components that are not (yet) complete values - a partly filled '
+                           'nested record, a list holding a placeholder - are dropped from the clone' % norm(g.test) if not only else norm(g.test),
+                           node=g)
         ctx.ob('C04.clone', f, 'every stored component copied; constructed ones cloned with cloneValueFlag', ok,
                'deep=%d shallow=%d stores=%d' % (len(deep), len(shallow), len(stores)))
     f = ctx.func('type.base.ConstructedAsn1Type.clone')
